@@ -54,6 +54,7 @@ def run(ctx) -> None:
   ctx.rule('R3', 'created trials: id = max_trial_id()+1 read per create, name from the same id', 2)
   ctx.rule('R4', 'surplus algorithm output is stored as REQUESTED on every path to the final return', 1)
   ctx.rule('R5', 'pop() loops test their list for emptiness', 2)
+  ctx.import_rules('C07', {'R7', 'R8'}, 'R6', 'fresh ids and sticky hand-out rest on the datastores: max_trial_id is a maximum, list_trials filters by exact study key')
   fi = svc.rpcs.get('SuggestTrials')
   if fi is None:
     raise AnalysisError('SuggestTrials not found')
